@@ -88,8 +88,11 @@ def weave(root, unit, um, kdir, log):
         log.append({"rule": "X5:closure-lift", "file": rel, "fn": lf["fn"], "line": vgen.line_of(data, c["span"][0]),
                     "before": data[c["span"][0]:c["body"][0]].decode(), "after": lf["header"]})
     add += um["text"]
+    first = open(path).read().count("\n") + 1
     with open(path, "a") as f:
         f.write(add)
+    um["woven_lines"] = (first, first + add.count("\n") + 1)      # line range of this unit in the woven file
+    um["woven_text"] = add
     return path
 
 
@@ -231,14 +234,48 @@ def run_kani_group(root, plan, names, snap, sd, prop, tier):
             if prop not in h["tags"]:
                 continue
             todo.append((u, h))
-    if todo:
+    for attempt in range(4):
+        if not todo:
+            break
         b = subprocess.run(["cargo", "kani", "-p", "cooklang", "--only-codegen"] + KANI_FLAGS, cwd=kdir, env=env_offline(target_dir),
                            capture_output=True, text=True)
-        if b.returncode != 0:
-            msg = (b.stderr or b.stdout)[-1500:]
+        if b.returncode == 0:
+            break
+        out = (b.stderr or "") + (b.stdout or "")
+        msg = out[-1500:]
+        # which woven harness modules do the compile errors sit in?  (a harness that builds a struct literal stops compiling
+        # when the repository adds a field: that costs this unit, not every Kani unit of the run)
+        culprits = set()
+        for m_ in re.finditer(r"^error(?:\[E\d+\])?:.*?\n\s*--> (src/[\w/]+\.rs):(\d+):", out, re.M):
+            f_, ln = m_.group(1), int(m_.group(2))
+            for u, um in units.items():
+                if um["file"] == f_ and "woven_lines" in um and um["woven_lines"][0] <= ln <= um["woven_lines"][1] and not results[u]["undecided"]:
+                    culprits.add(u)
+        if not culprits or attempt == 3:
             for u in units:
-                results[u]["undecided"].append({"reason": "kani-build-failed", "messages": [msg]})
+                if not results[u]["undecided"]:
+                    results[u]["undecided"].append({"reason": "kani-build-failed", "messages": [msg]})
             return list(results.values())
+        for u in culprits:
+            results[u]["undecided"].append({"reason": "kani-harness-does-not-compile", "messages": [u + ": " + msg[-600:]]})
+        # rebuild the woven files without the culprits
+        by_file = {}
+        for u, um in units.items():
+            by_file.setdefault(um["file"], []).append(u)
+        for f_, us in by_file.items():
+            path = os.path.join(kdir, f_)
+            src = os.path.join(snap, f_)
+            if not any(u in culprits for u in us) or not os.path.exists(src):
+                continue
+            base = open(src).read()
+            for u in us:
+                if results[u]["undecided"] or "woven_text" not in units[u]:
+                    continue
+                first = base.count("\n") + 1
+                base += units[u]["woven_text"]
+                units[u]["woven_lines"] = (first, first + units[u]["woven_text"].count("\n") + 1)
+            open(path, "w").write(base)
+        todo = [(u, h) for u, h in todo if not results[u]["undecided"]]
     with cf.ThreadPoolExecutor(max_workers=MAX_PAR) as ex:
         futs = {ex.submit(run_harness, kdir, target_dir, h): (u, h) for u, h in todo}
         for f in cf.as_completed(futs):
